@@ -33,7 +33,7 @@ def check(repo, res, tier):
     res.rule("R-WALK", "exact-mode paths equal the first-reaction walk: one exponential clock (mean 1/rate) per positive-rate event, the earliest fires, time advances by that clock")
     X.check_newjumptimes(repo, res)
     X.check_checkjump(repo, res)
-    n = X.check_walks(repo, res, only_exact=True)
+    n = X.check_walks(repo, res, only_exact=True, tier=tier)
     res.floor("exact walk scenarios interpreted", n, 7)
     cls_ = M.sim_class(repo)
     # S4: the law is judged on the state *at a requested time*; for exact runs that is the last-event look-up
